@@ -346,6 +346,32 @@ def run_nested(outer_offers, inner_offers, upstream_kind, http2, eager):
     if servers: res["upstream_offers"] = [hx(x) for x in (servers[-1].alpn_offers or [])]
     return res
 
+LAYER_KINDS = ["hp", "hup", "mode", "ctls", "stls", "http", "tcp"]
+
+
+def run_layers(kinds, client_alpn):
+    """the real TlsConfig.tls_start_client on a context whose layer list is built from real layer objects of the given
+    kinds (each layer appends itself to context.layers, as in the proxy core); observed: AppData.client_alpn"""
+    from mitmproxy import tls
+    from mitmproxy.proxy import layers as L
+    from mitmproxy.proxy.layers import modes
+    from mitmproxy.proxy.layers.http import HTTPMode
+    ta, tctx = tls_addon()
+    ctx = make_ctx(tctx, [], None, False)
+    ctx.layers.clear()
+    for k in kinds:
+        if k == "hp": modes.HttpProxy(ctx)
+        elif k == "hup": modes.HttpUpstreamProxy(ctx)
+        elif k == "mode": modes.TransparentProxy(ctx)
+        elif k == "ctls": proxy_tls.ClientTLSLayer(ctx)
+        elif k == "stls": proxy_tls.ServerTLSLayer(ctx)
+        elif k == "http": L.HttpLayer(ctx, HTTPMode.regular)
+        else: L.TCPLayer(ctx)
+    ctx.client.alpn = client_alpn          # after the layers: ClientTLSLayer.__init__ may reset it
+    ts = tls.TlsData(ctx.client, context=ctx)
+    ta.tls_start_client(ts)
+    return {"pin": opt_hex(ts.ssl_conn.get_app_data()["client_alpn"]), "n_layers": len(ctx.layers)}
+
 
 class Check(PropertyCheck):
     prop = "C18"
@@ -451,6 +477,13 @@ class Check(PropertyCheck):
         def proto():
             return rng.pick(cls) if rng.chance(0.8) else rng.pick(pool) if rng.chance(0.7) else rng.bytes_(rng.randint(0, 6))
 
+        # which handshake is the secure web proxy's outer one: tls_start_client on real layer lists
+        stacks = [["hp", "ctls", "http"], ["hp", "ctls"], ["hp", "http", "stls", "ctls"], ["hp", "ctls", "http", "stls", "ctls"],
+                  ["hp", "ctls", "http", "ctls"], ["hup", "ctls", "http"], ["mode", "stls", "ctls"], ["hp"], ["hp", "http"],
+                  ["hp", "tcp", "ctls"], ["mode", "hp", "ctls"], ["hp", "ctls", "ctls"]]
+        for st in stacks:
+            for ca in (None, H2, b"qux"):
+                yield {"op": "layers", "kinds": st, "c": opt_hex(ca)}
         # nested client TLS (secure web proxy: TLS to the proxy, CONNECT, TLS to the origin) through the real layer stack
         for outer in ([], [H11], [H2, H11]):
             for inner in ([H2, H11], [H11, H2], [H2], [H11]):
@@ -482,6 +515,12 @@ class Check(PropertyCheck):
                 yield {"op": "srv", "client_offers": [hx(x) for x in o], "preset": [hx(H11)], "http2": h}
         while True:
             r = rng.random()
+            if rng.chance(0.01):
+                n = rng.randint(1, 6)
+                kinds = [rng.pick(["hp", "hp", "hup", "mode"])] + [rng.pick(LAYER_KINDS[3:]) for _ in range(n - 1)]
+                if len(kinds) > 1 and kinds[1] == "ctls" and rng.chance(0.5): kinds[0] = "hp"
+                yield {"op": "layers", "kinds": kinds, "c": opt_hex(rng.pick([None, None, H2, H11, b"qux", b""]))}
+                continue
             if rng.chance(0.002 if tier == "quick" else 0.001):
                 mk = lambda: list(dict.fromkeys(rng.pick(cls + [b"h2c"]) for _ in range(rng.randint(0, 3))))
                 yield {"op": "nested", "outer": [hx(x) for x in rng.pick([[], [H11], [H2, H11], [H11, H2], [H2], mk()])],
@@ -517,6 +556,8 @@ class Check(PropertyCheck):
         if op == "cb":
             r = call_cb(opt_unhex(case["c"]), opt_unhex(case["s"]), case["http2"], [unhx(x) for x in case["offers"]])
             return {"r": opt_hex(r)}
+        if op == "layers":
+            return run_layers(case["kinds"], opt_unhex(case["c"]))
         if op == "nested":
             import json
             obs = run_nested([unhx(x) for x in case["outer"]], [unhx(x) for x in case["offers"]], case["up"], case["http2"], case["eager"])
@@ -558,6 +599,8 @@ class Check(PropertyCheck):
             c, s = opt_unhex(case["c"]), opt_unhex(case["s"])
             offers = [unhx(x) for x in case["offers"]]
             return self.judge(c, s, case["http2"], offers, opt_unhex(obs["r"]), swp=(c == H11) or None)
+        if op == "layers":
+            return []       # AppData is internal: tied to the model; the sentences are judged on negotiated protocols (hs/stack/nested)
         if op == "nested":
             fails = []
             if not obs["outer_done"]:
@@ -675,6 +718,8 @@ class Check(PropertyCheck):
         op = case["op"]
         if op == "cb":
             return [f"cb {case['c']} {case['s']} {int(case['http2'])} " + (",".join(case["offers"]) or "nil")]
+        if op == "layers":
+            return [f"pin {','.join(case['kinds'])} {case['c']}"]
         if op == "nested":
             # the model predicts the outer selection from (swp, outer offers) and the inner one from
             # (inner offers, upstream protocol, http2, addon pin = none) only: nothing of the outer session may leak in
@@ -716,6 +761,7 @@ class Check(PropertyCheck):
 
     def impl_view(self, case, obs):
         op = case["op"]
+        if op == "layers": return obs["pin"]
         if op == "nested":
             g = lambda v: "none" if v == "-" else v
             v = []
@@ -738,6 +784,7 @@ class Check(PropertyCheck):
         return "none" if obs["proxy_side"] == "-" else obs["proxy_side"]
 
     def classify(self, case, obs):
+        if case["op"] == "layers": return ("layers", tuple(case["kinds"]), case["c"])
         key = "offers" if case["op"] != "srv" else "client_offers"
         if not case[key]: return None
         return (case["op"], case.get("c"), case.get("s"), case["http2"], tuple(case[key]), case.get("swp"), tuple(case.get("preset", ())),
@@ -745,6 +792,8 @@ class Check(PropertyCheck):
 
     def branches(self, case, obs):
         op = case["op"]
+        if op == "layers":
+            return ["layers:" + ("override" if obs["pin"] == hx(H11) and case["c"] != hx(H11) else "client.alpn") + f":n={min(len(case['kinds']), 5)}"]
         if op == "nested":
             g = lambda v: "none" if v in ("-", "none") else unhx(v).decode("latin1")
             return [f"nested:{'server-first' if case['eager'] else 'client-first'}:outer={g(obs['outer_got'])}:upstream={g(obs['upstream_got'])}:inner={g(obs['inner_got'])}"]
